@@ -1437,11 +1437,11 @@ Qed.
 Lemma validate_none_nonempty : forall s ps, validate s ps = None -> doms_nonempty s = true.
 Proof.
   intros s ps H. unfold validate in H.
-  destruct (existsb (fun d => dempty d || dom_too_large d) s) eqn:E; [discriminate|].
+  destruct (existsb dempty s) eqn:E; [discriminate|].
   unfold doms_nonempty. apply forallb_forall. intros d Hd.
   destruct (dempty d) eqn:Ed; [|reflexivity].
-  assert (X : existsb (fun d => dempty d || dom_too_large d) s = true).
-  { apply existsb_exists. exists d. split; [exact Hd|]. rewrite Ed. reflexivity. }
+  assert (X : existsb dempty s = true).
+  { apply existsb_exists. exists d. split; [exact Hd|exact Ed]. }
   congruence.
 Qed.
 (* a store the engine accepts (every domain non-empty and sorted) is in range *)
